@@ -16,6 +16,7 @@ PRE05 = ("From Coq Require Import ZArith List Floats Bool.\n"
          "Import ListNotations.\nOpen Scope float_scope.\n")
 
 P2_PART = {0: (0.0, False), 1: (1.0, False), 2: (1.0, True), 3: (0.5109989461, False), 4: (0.0, False)}
+P5_PART = {0: (0.5109989461, False), 1: (0.5109989461, True), 2: (0.0, False)}
 P1_PART = {0: (0.0, False), 1: (0.5, False), 2: (0.5, True)}
 
 
@@ -41,7 +42,16 @@ def zlit(z):
 def gen_c01(r, n):
     cases = []
     for i in range(n):
-        k = ["mean", "elossmean", "eloss", "interact", "interact", "tcut"][i % 6]
+        k = ["mean", "elossmean", "eloss", "interact", "interact", "tcut", "eloss5"][i % 7]
+        if k == "eloss5":
+            # real positron / electron with the real annihilation process, brought to rest (or not) by the loss
+            E = 10 ** r.uniform(-2, 0.9)
+            Eset = r.choice([E, E, 10 ** r.uniform(-4, 0.9)])
+            value = r.choice([Eset, Eset, Eset, Eset / 2, math.nextafter(Eset, 0.0), 0.0])
+            cases.append((k, dict(dix=r.choice([0, 1]), pid=r.choice([1, 1, 1, 0]), E=E, Eset=Eset,
+                                  dep0=r.choice([0.0, 10 ** r.uniform(-3, 1)]), value=value, pclass=r.choice([1, 2, 5]),
+                                  applicable=True)))
+            continue
         if k in ("mean", "elossmean"):
             lowest = r.choice([2.0 ** -10, 0.5, 2.0])
             pid = r.choice([1, 2, 3])
@@ -102,6 +112,30 @@ def gen_c01(r, n):
     return cases
 
 
+def gen_msclimit(r):
+    """the two Urban MSC true-path limiters at their case splits: limit collapsed to limit_min
+    (range_factor*range_init and safety_factor*safety below it), physics step just below / at /
+    just above limit_min and the limit, safety 0 / on a boundary / beyond the range"""
+    lmin = 10 ** r.uniform(-6, -3)
+    collapsed = r.random() < 0.55
+    rf = 0.04
+    ri = lmin * (r.uniform(1.0, 20.0) if collapsed else r.uniform(40.0, 4000.0))
+    rng_ = max(ri * r.choice([0.5, 1.0, 1.0, 3.0]), lmin * 0.5)
+    c = r.random()
+    if collapsed:
+        safety = r.choice([0.0, 0.0, lmin * r.uniform(0.0, 1.5), rng_ * 2])
+    else:
+        safety = r.choice([0.0, rng_ * r.uniform(0, 1), rng_ * 2, 10 ** r.uniform(-6, -1)])
+    lim = max(max(rf * ri, 0.6 * safety) if safety < rng_ else rng_, lmin)
+    base = r.choice([lmin, lim])
+    phys = r.choice([base * r.uniform(0.05, 0.99), math.nextafter(base, 0.0), base, math.nextafter(base, math.inf),
+                     base * r.uniform(1.01, 30.0), rng_])
+    phys = max(phys, 2e-9)
+    return dict(pid=r.choice([0, 1]), E=10 ** r.uniform(-2.7, -1.3), range=rng_, safety=safety,
+                onb=int(r.random() < 0.25), phys=phys, preset=int(r.random() < 0.85), rf=rf, ri=ri, lmin=lmin,
+                u1=r.uniform(0.01, 0.99), u2=r.uniform(0.01, 0.99))
+
+
 def gen_statuscheck(r):
     """(order, prev, cur) for the real StatusCheckExecutor: every StepActionOrder, every status pair,
     every ordered pair of post-step action classes, along-step action kept / changed / missing"""
@@ -124,7 +158,10 @@ def gen_statuscheck(r):
 def gen_c05(r, n):
     cases = []
     for i in range(n):
-        k = ["steplimit", "update", "propagate", "msc", "ifail", "propagate", "physlimit", "physlimit", "statuscheck", "statuscheck", "errored"][i % 11]
+        k = ["steplimit", "update", "propagate", "msc", "ifail", "propagate", "physlimit", "physlimit", "statuscheck", "statuscheck", "errored", "msclimit", "msclimit"][i % 13]
+        if k == "msclimit":
+            cases.append((k, gen_msclimit(r)))
+            continue
         if k == "errored":
             cases.append((k, dict(status=r.choice([1, 2, 2, 3]), pclass=r.choice([0, 0, 1, 2, 3, 4, 5]),
                                   step=r.choice([0.0, 10 ** r.uniform(-6, 2), math.inf]))))
@@ -221,6 +258,8 @@ def harness_line(k, c):
         return "%s %s %d %s %d %d %s %d" % (k, fx(c["lowest"]), c["pid"], fx(c["E"]), c["vol"], c["stepmode"], fx(c["frac"]), c["pclass"])
     if k == "eloss":
         return "eloss %d %s %s %s %d %s %d" % (c["pid"], fx(c["E"]), fx(c["Eset"]), fx(c["dep0"]), int(c["applicable"]), fx(c["value"]), c["pclass"])
+    if k == "eloss5":
+        return "eloss5 %d %d %s %s %s %s %d" % (c["dix"], c["pid"], fx(c["E"]), fx(c["Eset"]), fx(c["dep0"]), fx(c["value"]), c["pclass"])
     if k in ("interact", "ifail"):
         return "interact %d %s %s %s %d %s %s %d %s %s %d %s" % (
             c["cutmode"], fx(c["gcut"]), fx(c["ecut"]), fx(c["pcut"]), c["pid"], fx(c["E"]), fx(c["dep0"]),
@@ -235,6 +274,10 @@ def harness_line(k, c):
         return "msc %d %s" % (len(c["seq"]), " ".join("%s %d %s %s" % (fx(p_), int(a), fx(t), fx(g)) for p_, a, t, g in c["seq"]))
     if k == "errored":
         return "errored %d %d %s" % (c["status"], c["pclass"], fx(c["step"]))
+    if k == "msclimit":
+        return "msclimit %d %s %s %s %d %s %d %s %s %s %s %s" % (
+            c["pid"], fx(c["E"]), fx(c["range"]), fx(c["safety"]), c["onb"], fx(c["phys"]), c["preset"],
+            fx(c["rf"]), fx(c["ri"]), fx(c["lmin"]), fx(c["u1"]), fx(c["u2"]))
     if k == "statuscheck":
         return "statuscheck %d %d %d %d %d %d %d %d" % (c["order"], c["ps"], c["pp"], c["pa"], c["cs"], c["inf"], c["cp"], c["ca"])
     if k == "steplimit":
@@ -275,6 +318,10 @@ def model_expr(k, c, o):
         at_rest = o[4]
         return "run_eloss %s %s %s %s %s %s %s %s" % (hexf(c["Eset"]), hexf(m), b(anti), hexf(c["dep0"]), zlit(c["pclass"]),
                                                      b(c["applicable"]), b(at_rest), hexf(c["value"]))
+    if k == "eloss5":
+        m, anti = P5_PART[c["pid"]]
+        return "run_eloss %s %s %s %s %s %s %s %s" % (hexf(c["Eset"]), hexf(m), b(anti), hexf(c["dep0"]), zlit(c["pclass"]),
+                                                     b(True), b(o[4]), hexf(c["value"]))
     if k == "interact":
         m, anti = P1_PART[c["pid"]]
         secs = "[" + "; ".join("(%s, %s)" % (zlit(p), hexf(e)) for p, e in c["secs"]) + "]"
@@ -295,6 +342,12 @@ def model_expr(k, c, o):
         return "run_msc [%s]" % "; ".join("(%s, %s, %s, %s)" % (hexf(p_), b(a), hexf(t), hexf(g)) for p_, a, t, g in c["seq"])
     if k == "errored":
         return "run_errored %s %s %s" % (zlit(c["status"]), zlit(c["pclass"]), hexf(c["step"]))
+    if k == "msclimit":
+        r1, rf1, ri1, lm1, n1, r2, rf2, ri2, lm2, n2, sf, usp = o
+        us = "[%s; %s]" % (hexf(c["u1"]), hexf(c["u2"]))
+        return "(run_msclimit %s %s %s %s %s %s %s %s, run_msclimit_min %s %s %s %s)" % (
+            hexf(c["phys"]), hexf(c["range"]), hexf(c["safety"]), hexf(rf1), hexf(ri1), hexf(sf), hexf(lm1), us,
+            hexf(c["phys"]), hexf(ri2), hexf(lm2), us)
     if k == "statuscheck":
         ids = [o[1 + 2 * j] for j in range(9)]
         tbl = "[" + "; ".join("(%s, %s)" % (zlit(o[1 + 2 * j]), zlit(o[2 + 2 * j])) for j in range(9)) + "]"
@@ -319,7 +372,7 @@ def impl_view(k, c, o):
         return [o[0]]
     if k == "elossmean":
         return list(o[0:4])
-    if k == "eloss":
+    if k in ("eloss", "eloss5"):
         return list(o[0:4])
     if k == "interact":
         E1, dep, st, pc, step1, step0, n = o[0:7]
@@ -338,6 +391,8 @@ def impl_view(k, c, o):
         return [[bool(o[3 * i]), o[3 * i + 1], o[3 * i + 2]] for i in range(len(c["seq"]))]
     if k == "errored":
         return [o[0], o[1], o[2]]
+    if k == "msclimit":
+        return [o[0], o[4], [o[5], o[9]]]    # Coq prints ((a, b), (c, d)) as (a, b, (c, d))
     if k == "statuscheck":
         return [o[0]]
     if k == "steplimit":
@@ -368,10 +423,23 @@ def oracle(k, c, o):
             return "track left alive at or below the tracking cut: E - eloss = %r <= %r" % (c["E"] - res, low)
         if c["stepmode"] == 0 and o[1] == o[2] and o[3] * o[1] >= c["E"] * o[5] and res != c["E"]:
             return "range-limited step deposits %r, not all of E=%r" % (res, c["E"])
-    if k in ("eloss", "elossmean"):
-        E0 = c["Eset"] if k == "eloss" else c["E"]
+    if k == "eloss5":
+        m, anti = P5_PART[c["pid"]]
+        if anti and not o[4]:
+            return ("the positron of a problem that contains the positron-annihilation process (valid at rest) is built "
+                    "with has_at_rest = false (disable_integral_xs=%d)" % c["dix"])
+    if k in ("eloss", "eloss5"):
+        m, anti = (P5_PART if k == "eloss5" else P2_PART)[c["pid"]]
+        if anti and c["Eset"] > 0 and o[0] == 0.0 and o[2] == 4:
+            # hypothesis tevent_ok of the history theorems: an antiparticle stopped by continuous loss is
+            # removed only through an at-rest process; killed on the spot its 2mc^2 is neither deposited nor emitted
+            return ("energy leak: antiparticle stopped by the continuous loss was killed (post-step class %d, has_at_rest=%d): "
+                    "its 2mc^2 = %r is neither deposited (deposit grew by %r = kinetic energy only) nor emitted"
+                    % (o[3], o[4], 2 * m, o[1] - c["dep0"]))
+    if k in ("eloss", "eloss5", "elossmean"):
+        E0 = c["Eset"] if k in ("eloss", "eloss5") else c["E"]
         E1 = o[0]
-        dd = (o[1] - c["dep0"]) if k == "eloss" else o[1]
+        dd = (o[1] - c["dep0"]) if k in ("eloss", "eloss5") else o[1]
         tol = 8 * M.EPS * (abs(E0) + abs(o[1]))
         if abs(E0 - (E1 + dd)) > tol:
             return "eloss step not balanced: E %r -> %r but deposit grew by %r" % (E0, E1, dd)
@@ -418,6 +486,15 @@ def oracle(k, c, o):
                 return "MSC not applicable on step %d (physics limit %r) but apply_step was called / step length became %r" % (i, phys, fin)
             if fin > phys:
                 return "step %d longer than its pre-step limit after MSC: %r > %r" % (i, fin, phys)
+    if k == "msclimit":
+        for name, rr, lm in (("UrbanMscSafetyStepLimit", o[0], o[3]), ("UrbanMscMinimalStepLimit", o[5], o[8])):
+            if rr > c["phys"]:
+                return ("%s returned a true path %r LONGER than the physics step limit %r (limit_min %r)"
+                        % (name, rr, c["phys"], lm))
+            if rr < min(lm, c["phys"]):
+                return "%s returned %r below min(limit_min %r, physics step %r)" % (name, rr, lm, c["phys"])
+        if o[11] != 0:
+            return None
     if k == "errored":
         if o[0] != 3 or o[1] != 3 or o[3] != 0:
             return ("apply_errored left status=%d post-step class=%d along-step set=%d; expected errored (3), tracking cut (3), "
